@@ -624,6 +624,7 @@ class InstanceGen:
 
 
 _XSD_CACHE: dict = {}
+_XSD_ERRORS: dict = {}
 
 
 def validator(files: dict[str, str], workdir: str):
@@ -636,7 +637,14 @@ def validator(files: dict[str, str], workdir: str):
         try:
             _XSD_CACHE[key] = etree.XMLSchema(etree.parse(os.path.join(workdir, "main.xsd")))
         except etree.XMLSchemaParseError as e:
-            raise HarnessError(f"generated schema is not a valid schema: {e}\n{files['main.xsd']}")
+            _XSD_CACHE[key] = None
+            _XSD_ERRORS[key] = str(e)
         if len(_XSD_CACHE) > 64:
             _XSD_CACHE.pop(next(iter(_XSD_CACHE)))
+    if _XSD_CACHE[key] is None:
+        raise InvalidSchema(_XSD_ERRORS.get(key, "invalid schema"))
     return _XSD_CACHE[key]
+
+
+class InvalidSchema(Exception):
+    """libxml2 refuses the combination of features (e.g. a non-deterministic content model)."""
